@@ -1,21 +1,43 @@
-(* C24 — the property: every committed state satisfies the declared constraints.
-   Independent evaluator over a dumped table (list of rows). *)
+(* C24 — the property, declaratively: a database state satisfies PRIMARY KEY (inherent),
+   NOT NULL, CHECK, UNIQUE and FOREIGN KEY; and an independent evaluator over dumped rows. *)
 From Coq Require Import NArith List Bool.
 From Dolt Require Import C23.Model C24.Model.
 Import ListNotations.
 Local Open Scope N_scope.
 
+Section Universe.
+  Variable U : list N.
+
+  Definition RowsOk (t : table) : Prop := forall k r, get U t k = Some r -> row_ok k r = true.
+  Definition FkOk (t : table) : Prop := forall k r, get U t k = Some r -> fk_ok_row U t k r = true.
+  Definition Uniq (t : table) : Prop :=
+    forall k1 k2 r1 r2, get U t k1 = Some r1 -> get U t k2 = Some r2 -> k1 <> k2 ->
+                        is_parent k1 = false -> is_parent k2 = false -> clash r1 r2 = false.
+  Definition Valid (t : table) : Prop := RowsOk t /\ FkOk t /\ Uniq t.
+End Universe.
+
+(* independent evaluator over a dump (rows of both tables, keys of p shifted by 100):
+   the (violation type, key) pairs of the rows that break a constraint *)
 Fixpoint pk_unique (rows : list (N * cell * cell)) : bool :=
   match rows with
   | [] => true
   | (k, _, _) :: r => negb (existsb (fun x => fst (fst x) =? k) r) && pk_unique r
   end.
 
-Fixpoint a_unique (rows : list (N * cell * cell)) : bool :=
-  match rows with
-  | [] => true
-  | (_, a, b) :: r => negb (existsb (fun x => clash (a, b) (snd (fst x), snd x)) r) && a_unique r
-  end.
+Definition has_key (rows : list (N * cell * cell)) (k : N) : bool := existsb (fun x => fst (fst x) =? k) rows.
 
+Definition row_viols (rows : list (N * cell * cell)) (x : N * cell * cell) : list (N * N) :=
+  let '(k, a, b) := x in
+  if is_parent k then (if notnull_ok (a, b) then [] else [(vt_notnull, k)])
+  else
+    (match b with
+     | Some y => if has_key rows (pbase + y) then [] else [(vt_fk, k)]
+     | None => []
+     end)
+    ++ (if existsb (fun y => let '(k', a', b') := y in negb (k' =? k) && negb (is_parent k') && clash (a, b) (a', b')) rows
+        then [(vt_unique, k)] else [])
+    ++ (if check_ok (a, b) then [] else [(vt_check, k)]).
+
+Definition viols_of_rows (rows : list (N * cell * cell)) : list (N * N) := flat_map (row_viols rows) rows.
 Definition rows_valid (rows : list (N * cell * cell)) : bool :=
-  pk_unique rows && a_unique rows && forallb (fun x => check_ok (snd (fst x), snd x)) rows.
+  pk_unique rows && match viols_of_rows rows with [] => true | _ => false end.
